@@ -20,6 +20,9 @@ TlvDec(b) ==
   ELSE IF b[1] <= 127 THEN LOk(b[1], Drop(b, 1))
   ELSE IF b[1] = 129 THEN (IF Len(b) < 2 THEN LErr("Incomplete") ELSE LOk(b[2], Drop(b, 2)))
   ELSE IF b[1] = 130 THEN (IF Len(b) < 3 THEN LErr("Incomplete") ELSE LOk(b[2] * 256 + b[3], Drop(b, 3)))
+  \* longer forms are not implemented; one whose number does not even fit a machine word (more than eight length bytes, a non-zero
+  \* byte in front of the last eight) is named as such: whatever a decoder may learn to accept, it must not take it for a small length
+  ELSE IF b[1] - 128 >= 9 /\ Len(b) >= 1 + (b[1] - 128) /\ \E i \in 2..(b[1] - 128 - 7) : b[i] # 0 THEN LErr("Overflow")
   ELSE LErr("NonImplemented")
 \* Leniency (named): 81 xx and 82 hh ll are accepted for any value, also ones that have a shorter form.
 TlvLenient(b) == /\ Len(b) >= 2
